@@ -351,6 +351,21 @@ def r_format_dispatch(r, prog):
     r.floor(2)
 
 
+import decisions
+
+
+def r_json_default_serializer(r, prog):
+    """Each JSON line is written by serde_json's own serializer with its default (compact) formatter: a hand-written formatter is a second
+    implementation of JSON string escaping (surrogate pairs, control characters) that nothing here verifies."""
+    f = prog.fn(EM + 'emit_diagnostics_in_json')
+    mk = [c for c in f.calls() if 'serde_json::ser::Serializer' in (c.resolved or '') and c.name() in ('new', 'with_formatter', 'pretty') and not f.blocks[c.bb].get('cleanup')]
+    if len(mk) == 1 and mk[0].name() == 'new':
+        r.ok('serde_json::Serializer::new (default formatter)')
+    else:
+        r.finding('json-custom-formatter', mk[0].span if mk else f.span, 'emit_diagnostics_in_json builds its serializer with %s' % ([c.name() for c in mk] or 'nothing recognisable'))
+    r.floor(1)
+
+
 def run(ctx):
     prog = ctx.prog
     ctx.run_rule('C14.1a', 'T2', 'emitters: single pass in order, every write behind level != Allowed', r_emitters_skip_allowed_in_order, prog)
@@ -359,6 +374,8 @@ def run(ctx):
     ctx.run_rule('C14.2b', 'T6', 'format dispatch', r_format_dispatch, prog)
     from props import c09 as _c09
     ctx.run_rule('C14.2d', 'T10', 'the snippet code counts characters, never bytes (a byte offset inside a multi-byte character aborts the emission half-way)', _c09.r_snippet_units, prog)
+    ctx.run_rule('C14.4b', 'T1', 'JSON lines are written by serde_json\'s own serializer and formatter', r_json_default_serializer, prog)
+    ctx.run_rule('C14.1c', 'T2', 'every reported diagnostic is recorded (no cap, no filter in push_into / extend)', decisions.r_container_records_everything, prog)
     ctx.run_rule('C14.2c', 'T10', 'a snippet is cut from the file its span names', r_snippet_from_span_file, prog)
     ctx.run_rule('C14.3a', 'T10', 'totals: counted by level, human format only, stdout', r_totals, prog)
     ctx.run_rule('C14.3b', 'T10', 'exit status and totals come from the emitted vector', c07.r_exit_status, prog)
